@@ -348,9 +348,9 @@ pub fn run(ctx: &Ctx, prop: &str) -> Report {
     rep.corr_module = "Token".into();
     if prop == "C16" {
         rep.expect_classes(&["ref:token:account", "ref:token:mint", "ref:2022:account", "ref:2022:account:extended", "ref:2022:mint", "ref:2022:mint:extended",
-            "generic:PToken:account", "generic:PToken:mint", "generic:PToken2022:account", "generic:PToken2022:mint"]);
+            "generic:PToken:account", "generic:PToken:mint", "generic:PToken2022:account", "generic:PToken2022:mint", "length:>=64KiB:well-formed-extended", "corpus:own-constants", "address-offset:3"]);
     } else {
-        rep.expect_classes(&["generic:PToken:account", "generic:PToken:mint", "generic:PToken2022:account", "generic:PToken2022:mint"]);
+        rep.expect_classes(&["generic:PToken:account", "generic:PToken:mint", "generic:PToken2022:account", "generic:PToken2022:mint", "length:>=64KiB", "corpus:own-constants", "address-offset:3"]);
     }
     // ids and lengths are read from the crates
     if token::Account::get_packed_len() != 165 || token::Mint::get_packed_len() != 82
